@@ -24,6 +24,10 @@ pub struct Sizes {
 /// The sizes the library itself derives: SO_SNDBUF as reported to this process (through the
 /// interposer, if it fakes one), first-fragment capacity and follow-up fragment capacity.
 pub fn sizes() -> Sizes {
+    if cfg!(miri) {
+        // Miri cannot make sockets; the in-process transport it runs does not use these sizes
+        return Sizes { sndbuf: 212992, f1: 212952, f2: 212960 };
+    }
     let mut sv = [0i32; 2];
     let mut sndbuf: libc::c_int = 212992;
     unsafe {
